@@ -5,7 +5,7 @@
    A change of the sources that breaks the save/restore discipline of a gpytorch class makes
    [ok_table] fail to type-check, hence Props/C20.v fail to build. *)
 From Coq Require Import List String ZArith Bool.
-From GPV Require Import Models.C20_ir Models.C20_check Models.C20_run Gen.Settings_gen Proofs.C20_scoped.
+From GPV Require Import Models.C20_ir Models.C20_check Models.C20_run Gen.Settings_gen Proofs.C20_scoped Proofs.C20_inner.
 Import ListNotations.
 Open Scope string_scope.
 
@@ -108,6 +108,68 @@ Lemma defaults_ok :
   = map (fun d => VK (snd d)) doc_defaults.
 Proof. vm_cast_no_check (eq_refl (map (fun d : string * string * list const * const => VK (snd d)) doc_defaults)). Qed.
 
+(* ------------------------------------------------------------------ query level *)
+(* the same obligation WITHOUT the cache exemption: every slot is restored.  Holds for every checked class
+   except deterministic_probes (whose probe-vector cache is dropped by design). *)
+Definition nocache (_ _ : string) : bool := false.
+Definition ok0 := class_ok gen_table doc_composites nocache.
+Definition expected_ok0 (c : string) : bool := expected_ok c && negb (String.eqb c "lo.deterministic_probes").
+Lemma ok0_table : map ok0 usable_now = map expected_ok0 usable_now.
+Proof. vm_cast_no_check (eq_refl (map expected_ok0 usable_now)). Qed.
+
+Definition checked0 : list string := filter expected_ok0 (usable gen_table).
+
+Lemma checked0_ok : forall c, In c checked0 -> ok0 c = true.
+Proof.
+  intros c H. unfold checked0 in H. destruct (proj1 (filter_In _ _ _) H) as [H1 H2].
+  rewrite usable_now_eq in H1. rewrite (map_eq_In _ _ ok0 expected_ok0 usable_now c ok0_table H1). exact H2.
+Qed.
+
+Lemma checked0_checked : forall c, In c checked0 -> In c checked.
+Proof.
+  intros c H. unfold checked0 in H. destruct (proj1 (filter_In _ _ _) H) as [H1 H2].
+  unfold checked. apply (proj2 (filter_In _ _ _)). split; [exact H1|].
+  unfold expected_ok0 in H2. apply andb_true_iff in H2. exact (proj1 H2).
+Qed.
+
+Lemma checked_checked0 : forall c, In c checked -> c <> "lo.deterministic_probes" -> In c checked0.
+Proof.
+  intros c H Hne. unfold checked in H. destruct (proj1 (filter_In _ _ _) H) as [H1 H2].
+  unfold checked0. apply (proj2 (filter_In _ _ _)). split; [exact H1|].
+  unfold expected_ok0. rewrite H2. destruct (String.eqb_spec c "lo.deterministic_probes"); [contradiction|reflexivity].
+Qed.
+
+Lemma prog_ok0_of_classes : forall p,
+  (forall c, In c (prog_classes p) -> In c checked0) -> prog_ok gen_table doc_composites nocache p = true.
+Proof.
+  induction p as [|p1 IH1 p2 IH2|c args body IHb| |]; intros Hc; cbn [prog_ok]; try reflexivity.
+  - rewrite IH1, IH2; [reflexivity| |]; intros c Hin; apply Hc; cbn; apply in_or_app; auto.
+  - rewrite IHb by (intros c0 Hin; apply Hc; cbn; auto).
+    rewrite andb_true_r. apply checked0_ok. apply Hc. cbn. auto.
+Qed.
+
+(* every query -- any class, any method, any arguments -- answers after the program as before it *)
+Lemma queries_scoped_gen : forall p G G' o tr,
+  (forall c, In c (prog_classes p) -> In c checked0) -> run gen_table p G = (G', o, tr) ->
+  forall c m args, observe gen_table G' c m args = observe gen_table G c m args.
+Proof.
+  intros p G G' o tr Hc Hr c m args.
+  destruct (run_inv gen_table doc_composites nocache p G G' o tr (prog_ok0_of_classes p Hc) Hr) as [_ [Hv _]].
+  apply observe_ext. intros c0 a. apply Hv. reflexivity.
+Qed.
+
+(* INNERMOST WINS (structural half) on the regenerated table *)
+Lemma innermost_gen : forall c args body G G' o tr,
+  (forall k, In k (prog_classes body) -> In k checked) ->
+  run gen_table (PWith c args (PSeq PObserve body)) G = (G', o, tr) ->
+  tr = [] \/ exists s0 tr', tr = s0 :: tr' /\
+     forall s, In s tr' -> forall k a, ~ In k (footprint doc_composites body) -> doc_caches k a = false ->
+       lookup_v gen_table s k a = lookup_v gen_table s0 k a.
+Proof.
+  intros c args body G G' o tr Hc Hr.
+  exact (inner_generic gen_table doc_composites doc_caches c args body G G' o tr (prog_ok_of_classes body Hc) Hr).
+Qed.
+
 (* ------------------------------------------------------------------ non-vacuity *)
 (* a nested program over two gpytorch classes that ends by an exception: its classes are checked, it
    runs (outcome 1 = raised, 2 observations), the values seen inside differ from the defaults
@@ -128,3 +190,9 @@ Lemma ex_prog_runs :
   run_case (ex_queries, ex_prog)
   = [1; 2;  1; 1; 2; 7; 1; 0;   1; 1; 2; 7; 1; 2; 1; 2;   1; 0; 2; 1; 1; 0]%Z.
 Proof. vm_compute. reflexivity. Qed.
+
+Lemma ex_prog_checked0 : forall c, In c (prog_classes ex_prog) -> In c checked0.
+Proof.
+  intros c H. apply checked_checked0; [apply ex_prog_checked; exact H|].
+  destruct H as [H|[H|[]]]; subst c; discriminate.
+Qed.
